@@ -1065,7 +1065,7 @@ func (dsc *dataStoreCommand) dictScanUnlocked(data *redisDict, cursor uint32, pa
 	count int,
 	isMatch func(item *redisDictItem) any) (output respValue) {
 	result := make([]any, 2)
-	matches := make([]any, 0, count)
+	matches := make([]any, 0, 2*min(count, data.count)) // the table bounds the result, however large the count
 
 	highBit := uint32(len(data.buckets)) // always a power of 2
 	shift := 32 - bitPosition(highBit)
@@ -1644,7 +1644,7 @@ func (dsc *dataStoreCommand) lmpop(keyNames []string, left bool, count int) (out
 	defer dsc.unlock()
 
 	var result []any
-	elements := make([]any, 0, count)
+	elements := []any{} // sized by what is popped, not by the requested count
 
 	for _, keyName := range keyNames {
 		list, err := dsc.getListUnlocked(keyName)
